@@ -132,7 +132,7 @@ class ExprMixin(object):
       return hi - lo
     if k == 'set':
       return self.set_card(st, v)
-    if k == 'dict':
+    if k in ('dict', 'ddict'):
       return self.dict_card(st, v)
     raise Unsupported('len of %r' % (v.ty,))
 
@@ -927,6 +927,12 @@ class ExprMixin(object):
           r = z3.BoolVal(False)
         else:
           r = self.eq_terms(st, cx, a, b)
+      elif isinstance(a, V) and isinstance(b, V) and a.ty.is_reflike and b.ty.is_reflike and (a.ty.k in ('str', 'any') or b.ty.k in ('str', 'any')) \
+          and not (a.ty.k in ('ref',) or b.ty.k in ('ref',) or a.ty.k in ('list', 'set', 'dict', 'deque') or b.ty.k in ('list', 'set', 'dict', 'deque')):
+        # opaque values stand for what '==' compares (two equal strings have one id): the same object implies the
+        # same value, but equal values need not be one object -- 'is' between them is left undetermined
+        nd = z3.Bool(fresh_name('sameobj'))
+        r = z3.And(a.t == b.t, z3.Or(a.t == 0, nd))
       elif isinstance(a, V) and isinstance(b, V) and a.ty.is_reflike and b.ty.is_reflike:
         r = a.t == b.t
       elif isinstance(a, V) and isinstance(b, V) and a.ty.k == 'bool' and b.ty.k == 'bool':
@@ -991,8 +997,8 @@ class ExprMixin(object):
       return self.load_field(st, cont.t, cont.ty.name, 'has_' + f).t
     if isinstance(cont, V) and cont.ty.k == 'set':
       return z3.Select(self.set_mem_arr(st, cont), coerce(x, cont.ty.args[0]))
-    if isinstance(cont, V) and cont.ty.k == 'dict':
-      return z3.Select(self.dict_has_arr(st, cont), coerce(x, cont.ty.args[0]))
+    if isinstance(cont, V) and cont.ty.k in ('dict', 'ddict'):
+      return z3.Select(self.dict_has_arr(st, cont), self.key_term(st, x, cont.ty.args[0]))
     if isinstance(cont, V) and cont.ty.k == 'str' and isinstance(x, V) and x.ty.k == 'str':
       if cont.py is not None and x.py is not None:
         return z3.BoolVal(x.py in cont.py)
